@@ -209,7 +209,8 @@ func c13Worker(w *W) {
 		}()
 	}
 	var apMu sync.RWMutex // guards replacement of ap in the stop/start mode (writers take RLock around Write)
-	stopAt := time.Now().Truncate(interval).Add(time.Duration(boundaries)*interval + interval/2)
+	t0 := time.Now().Truncate(interval)
+	stopAt := t0.Add(time.Duration(boundaries)*interval + interval/2)
 	var wg sync.WaitGroup
 	for g := 0; g < W; g++ {
 		wg.Add(1)
@@ -234,6 +235,20 @@ func c13Worker(w *W) {
 					if d := nb.Sub(now); d > 30*time.Millisecond {
 						time.Sleep(d - time.Duration(5+r.IntN(20))*time.Millisecond)
 					}
+				case "idleburst":
+					// every writer is silent for more than one whole interval, then all of them resume at the same instant
+					// (at varying offsets inside the interval, also right after a boundary); the first writes after the
+					// silence race with the rotation that one of them performs
+					k := int(time.Since(t0)/(2*interval)) + 1
+					at := t0.Add(time.Duration(k)*2*interval + interval*time.Duration([]int{500, 20, 970, 300, 3, 700}[k%6])/1000)
+					if at.After(stopAt) {
+						return
+					}
+					if d := time.Until(at); d > 2*time.Millisecond {
+						time.Sleep(d - 2*time.Millisecond)
+					}
+					for time.Now().Before(at) {
+					}
 				case "sequential":
 					if r.IntN(6) == 0 {
 						time.Sleep(interval + time.Duration(r.IntN(400))*time.Millisecond) // idle across a whole interval
@@ -248,6 +263,9 @@ func c13Worker(w *W) {
 				burst := 1
 				if mode == "bursts" {
 					burst = 20
+				}
+				if mode == "idleburst" {
+					burst = 40
 				}
 				for k := 0; k < burst; k++ {
 					i++
@@ -440,7 +458,13 @@ func c13Worker(w *W) {
 	w.Count("stop_start_cycles", int64(cycles))
 	w.Count("rotations_won", y.counts()["roll.rotate.cas"])
 	w.Count("rotation_attempts", y.counts()["roll.rotate.checked"])
-	if files < boundaries && mode != "sequential" {
+	if mode == "idleburst" {
+		w.Count("resumptions_after_a_silent_interval", int64(files-1))
+		if files < 3 {
+			w.Inconclusive(fmt.Sprintf("idleburst: only %d files, too few resumptions after a silent interval", files))
+		}
+	}
+	if files < boundaries && mode != "sequential" && mode != "idleburst" {
 		w.Inconclusive(fmt.Sprintf("only %d files for %d boundaries: too few rotations observed", files, boundaries))
 	}
 	if !bad {
@@ -452,7 +476,7 @@ func c13Worker(w *W) {
 func init() {
 	register(&Prop{
 		ID: "C13", Level: "exploration", MinDistinct: 5, Worker: c13Worker,
-		Rule: "RollingFileAppender built directly with 1 s / 2 s intervals, crossed by real boundaries (quick 3-4, thorough up to 10) in parallel child processes: continuous writers (4-16), bursts aligned just before each boundary (16 writers x 20 records), a sequential writer that also idles across whole intervals, Stop/Start cycles several times per second, Start on a directory pre-seeded with same-named files for the current and following seconds, a mix with one-byte writes, a run in which one writer is stalled for more than two whole intervals inside Write, a run in which the rotating goroutine is overtaken by the next rotation and a single writer then continues alone, and a sequential run during which the local clock falls back by one hour (synthetic time zone); " +
+		Rule: "RollingFileAppender built directly with 1 s / 2 s intervals, crossed by real boundaries (quick 3-4, thorough up to 10) in parallel child processes: continuous writers (4-16), bursts aligned just before each boundary (16 writers x 20 records), a sequential writer that also idles across whole intervals, 8 writers that are all silent for more than a whole interval and then resume at the same instant (3+ times), Stop/Start cycles several times per second, Start on a directory pre-seeded with same-named files for the current and following seconds, a mix with one-byte writes, a run in which one writer is stalled for more than two whole intervals inside Write, a run in which the rotating goroutine is overtaken by the next rotation and a single writer then continues alone, and a sequential run during which the local clock falls back by one hour (synthetic time zone); " +
 			"records are self-describing frames of 12 B - 64 KiB with client-side snapshot (length+CRC) and wall-clock start/end stamps; a guarded yield point holds half of the writers that loaded the current file within 12 ms of a boundary until another writer has completed the rotation (at most 300 ms after the boundary), and adds 0-4 ms inside rotate() (all below one interval). " +
 			"Oracle over the final directory: every record whole, exactly once, in exactly one file named <name>.<14 digits>; no record in a file whose name-time is after the write completed; sequential mode: a write started in interval k is not in a file older than interval k; pre-existing content preserved; one-byte writes counted. Non-trivial/distinct = distinct (mode, writers, interval, build flavour, files created) runs that held.",
 		Assumptions: []string{"delays injected at yield points stay <= 300 ms, below one rotation interval, except in the stalled-writer run, where one writer is held for 2.3 intervals between loading the current file and writing (two rotations pass)", "wall clock is monotone during a run; file-name times are compared at one-second resolution"},
@@ -471,6 +495,7 @@ func init() {
 			add("continuous", 4, 1, "race", nb)
 			add("bursts", 16, 1, "plain", nb)
 			add("sequential", 1, 1, "plain", nb+1)
+			add("idleburst", 8, 1, "plain", nb+4)
 			add("stopstart", 2, 1, "plain", nb)
 			add("preseeded", 4, 1, "plain", nb)
 			add("onebyte", 4, 2, "plain", 2)
@@ -494,6 +519,8 @@ func init() {
 				add("preseeded", 1, 1, "plain", nb)
 				add("onebyte", 8, 1, "plain", nb)
 				add("continuous", 1, 1, "plain", nb)
+				add("idleburst", 16, 1, "race", 10)
+				add("idleburst", 3, 2, "plain", 12)
 			}
 			if !d.Quick() {
 				specs = d.Replicate(specs, 3)
